@@ -395,6 +395,22 @@ fn eval_paste(req: &str) -> ImplOut {
             ((rr, cc), cell_sig(model, 0, rr, cc), rc)
         })
         .collect();
+    if std::env::var("VERIF_DEBUG").is_ok() {
+        eprintln!("BEFORE:\n{}", wbgen::snapshot(m.get_model()));
+    }
+    // position-dependent formulas (implicit intersection) and cells that belong to array formulas
+    // or spills are outside what the property promises cell by cell: such cases are not judged
+    let single = |m: &UserModel, r: i32, c: i32| -> bool {
+        m.get_cell_array_structure(0, r, c).ok().and_then(|x| serde_json::to_string(&x).ok()).map(|t| t.contains("SingleCell")).unwrap_or(false)
+    };
+    let mut judged = src.iter().all(|((rr, cc), _, _)| single(&m, *rr, *cc) && single(&m, tr + (rr - r0), tc + (cc - c0)));
+    for ((rr, cc), _, _) in &src {
+        if let Ok(Some(t)) = m.get_model().get_cell_formula(0, *rr, *cc) {
+            if t.contains('@') || t.contains('#') || t.contains('{') || t.contains("SEQUENCE") {
+                judged = false;
+            }
+        }
+    }
     let obs_before: Vec<String> = observers.iter().map(|o| format!("{:?}|{:?}", m.get_model().get_cell_value_by_index(0, *o, 8), m.get_model().get_cell_value_by_index(0, *o, 9))).collect();
     let (data, sheet, range) = match clipboard_of(&m) {
         Ok(x) => x,
@@ -412,7 +428,13 @@ fn eval_paste(req: &str) -> ImplOut {
         return out.trivial();
     }
     m.evaluate();
-    out.ans = "pasted".into();
+    if std::env::var("VERIF_DEBUG").is_ok() {
+        eprintln!("area r0={r0} c0={c0} h={h} w={w} cut={is_cut} target=({tr},{tc})\nAFTER:\n{}", wbgen::snapshot(m.get_model()));
+    }
+    out.ans = if judged { "pasted".into() } else { "pasted-not-judged".into() };
+    if !judged {
+        return out.trivial();
+    }
     let overlap = tr < r0 + h && r0 < tr + h && tc < c0 + w && c0 < tc + w;
     let model = m.get_model();
     for ((rr, cc), sig, rc) in &src {
